@@ -10,22 +10,22 @@ MC = "model_checking"
 # id: (built?, category, technique, text, note, design_ref)
 CHECKS = {
  "C01": (True, SWEEP, "bounded-exhaustive enumeration of the complete 2^21-triple input space against a reference table",
-         "Complete enumeration of all 256x128x128 byte triples for four factory implementations (incl. two third-party ones) and of every StructuredShortMessage value, against an independently written canonicalisation table. The input space is finite and small, so this decides the property outright for the implementations enumerated.",
+         "Complete enumeration of all 256x128x128 byte triples for four factory implementations (incl. two third-party ones) and of every StructuredShortMessage value, against an independently written canonicalisation table; a message-layer transcript reproduced under Miri on i686 and s390x. The input space is finite and small, so this decides the property outright for the implementations enumerated.",
          "Trusted: the harness's MIDI table (common/midi.rs); 'every factory implementation' is instantiated with Raw, Structured and two harness-defined implementors.", "4 C01"),
  "C02": (True, SWEEP, "bounded-exhaustive enumeration of all valid triples against the MIDI 1.0 status table",
-         "Every classification method and accessor on all 2^21 valid triples x 3 implementations (generic code, method-call syntax on the concrete types, and &&, &mut, Box, Rc, Arc receivers), plus all 256 type bytes, compared with a table oracle written from the specification; every ordered pair of status bytes classified back to back on one thread (history independence). Supplementary, labelled as sampling: 40 (400) processes x 16 free-running threads against the same table.",
+         "Every classification method and accessor on all 2^21 valid triples x 3 implementations (generic code, method-call syntax on the concrete types, and &&, &mut, Box, Rc, Arc receivers), plus all 256 type bytes, compared with a table oracle written from the specification; every ordered pair of status bytes classified back to back on one thread (history independence); a message-layer transcript reproduced under Miri on i686 and s390x. Supplementary, labelled as sampling: 40 (400) processes x 16 free-running threads against the same table.",
          "Trusted: the harness's table oracle.", "4 C02"),
  "C03": (True, SWEEP, "bounded-exhaustive differential enumeration over 4 representations x all valid triples, plus re-feeding every explored scanner transition in each representation",
-         "All 20 trait methods and all 25 ordered conversions on every valid triple for Raw/Structured/three foreign implementors (one overrides to_bytes, one overrides from_bytes to be stricter); scanners re-fed with every representation at every state of their fixpoints.",
+         "All 20 trait methods and all 25 ordered conversions on every valid triple for Raw/Structured/three foreign implementors (one overrides to_bytes, one overrides from_bytes to be stricter, one refuses everything in from_bytes); a message-layer transcript reproduced under Miri on i686 and s390x; scanners re-fed with every representation at every state of their fixpoints.",
          "'Any third-party type' is a quantifier over programs; instantiated with two implementors exercising the two documented extension points.", "4 C03"),
  "C04": (True, SWEEP, "bounded-exhaustive enumeration of conversion/constructor/parser inputs in two feature configurations and on a 32-bit target",
-         "All ~150 conversions, `new`, FromStr and constants in configurations std and no-default-features: 8/16-bit and newtype sources complete, 32-bit complete in thorough, wider sources over a truncation alphabet; all 7-bit ASCII strings to length 3 (4) and every Unicode scalar alone / next to a digit; range audit of every message field over all triples; the conversions once more with a 32-bit usize (harness_p32 interpreted by Miri for i686).",
+         "All ~150 conversions, `new`, FromStr and constants in configurations std and no-default-features: 8/16-bit and newtype sources complete, 32-bit complete in thorough, wider sources over a truncation alphabet; all 7-bit ASCII strings to length 3 (4) and every Unicode scalar alone / next to a digit; range audit of every message field over all triples and of every accessor of a third-party message whose status byte changes between reads; every numeral up to 1 100 000; the conversions once more with a 32-bit usize (harness_p32 interpreted by Miri for i686).",
          "64/128-bit and pointer-sized sources are covered over a structured finite alphabet (low 16 bits x high-bit patterns), not their whole range.", "4 C04"),
  "C05": (True, SWEEP, "bounded-exhaustive enumeration against reference arithmetic and a reference numeral recogniser",
-         "Value preservation of every conversion in and out, parsing of all strings over a 14-symbol alphabet up to length 4 (6 thorough), all 7-bit ASCII strings up to length 3 (4), every Unicode scalar alone / before / after a digit, plus structured numerals, Display round trip for every value, ordering for all pairs.",
+         "Value preservation of every conversion in and out, parsing of all strings over a 14-symbol alphabet up to length 4 (6 thorough), all 7-bit ASCII strings up to length 3 (4), every Unicode scalar alone / before / after a digit, plus structured numerals, Display round trip for every value (also under twelve formatter-flag combinations), every numeral up to 1 100 000, ordering for all pairs.",
          "Non-ASCII characters appear alone or next to one digit only; U14 ordering is all-pairs only in the thorough tier; the 32-bit part covers conversions, not parsing.", "4 C05"),
  "C06": (True, SWEEP, "bounded-exhaustive enumeration of every constructor argument tuple",
-         "Every argument tuple of the 19 specific constructors and the complete data grid of the 3 generic ones for 4 implementations (incl. a third-party type with a stricter from_bytes), test_util shorthands against the factory and through out-of-range values in every position.",
+         "Every argument tuple of the 19 specific constructors and the complete data grid of the 3 generic ones for 4 implementations (incl. third-party types with a stricter and with an all-refusing from_bytes), a build with panic=abort (each generic-constructor call in a child process), a message-layer transcript reproduced under Miri on i686 and s390x, test_util shorthands against the factory and through out-of-range values in every position.",
          "Trusted: the harness's table oracle.", "4 C06"),
 }
 MORE = {
